@@ -38,14 +38,26 @@ type event struct {
 	R     uint32 `json:"r,omitempty"`
 	Space int32  `json:"space,omitempty"`
 	DS    int    `json:"ds,omitempty"` // index into the list of created datasets (delete)
+	// create / delete: the serving node crashes at its CrashAt-th durable write of this event (before it, or after it
+	// returned), and is restarted afterwards
+	CrashAt    int  `json:"crash_at,omitempty"`
+	CrashAfter bool `json:"crash_after,omitempty"`
 }
 
 func (e event) String() string {
+	crash := ""
+	if e.CrashAt > 0 {
+		ph := "before"
+		if e.CrashAfter {
+			ph = "after"
+		}
+		crash = fmt.Sprintf("; n%d crashes %s its durable write #%d and restarts", e.Node, ph, e.CrashAt)
+	}
 	switch e.Kind {
 	case "create":
-		return fmt.Sprintf("create(via n%d, P=%d R=%d space=%d)", e.Node, e.P, e.R, e.Space)
+		return fmt.Sprintf("create(via n%d, P=%d R=%d space=%d%s)", e.Node, e.P, e.R, e.Space, crash)
 	case "delete":
-		return fmt.Sprintf("delete(via n%d, dataset #%d)", e.Node, e.DS)
+		return fmt.Sprintf("delete(via n%d, dataset #%d%s)", e.Node, e.DS, crash)
 	}
 	return fmt.Sprintf("%s(n%d)", e.Kind, e.Node)
 }
@@ -57,6 +69,10 @@ type wld struct {
 	objects  map[uuid.UUID][]*storage.Dataset // dataset objects per node captured after create (to check unload after delete)
 	expected map[uuid.UUID]string             // acknowledged catalogue: id -> canonical descriptor
 	counts   struct{ creates, deletes, snapshots, restarts int }
+	// requests that were cut short by a crash before they were acknowledged: their effect may or may not be there
+	unackedCreates int
+	maybeDeleted   map[string]bool
+	lastDurable    int // durable writes the serving node performed during the last event
 }
 
 func canonDataset(d *pb.Dataset) string {
@@ -111,7 +127,11 @@ func build(nNodes int, path []event) (*wld, string, string) {
 		return fail("setup:"+v.Key, v.Desc)
 	}
 	for _, e := range path {
-		if k, d := w.apply(e); k != "" {
+		k, d := w.apply(e)
+		if os.Getenv("VERIF_DEBUG") != "" {
+			fmt.Fprintf(os.Stderr, "after %v: %s | %s\n", e, k, w.canon())
+		}
+		if k != "" {
 			return w, k, fmt.Sprintf("after %v: %s", e, d)
 		}
 	}
@@ -125,7 +145,60 @@ func (w *wld) first() *sim.Violation {
 	return nil
 }
 
+// recover restarts a node that crashed in the middle of an event and lets the cluster settle.
+func (w *wld) recover(id uint64) (string, string) {
+	w.Disarm()
+	if !w.Node(id).Crashed {
+		return "", ""
+	}
+	w.S.KillPrefix(fmt.Sprintf("n%d/", id))
+	if err := w.Boot(id); err != nil {
+		return "restart-fails", fmt.Sprintf("setup() returned %v", err)
+	}
+	if v := w.first(); v != nil {
+		return "restart:" + v.Key, v.Desc
+	}
+	// time passes for everybody until the zero group has a leader again: the restarted node may have lost the tail of
+	// its log (a leader sends entries while it persists them) and then cannot win; the others' election timers must run too
+	for r := 0; r < 8 && w.ZeroLeader() == 0; r++ {
+		var live []uint64
+		for _, n := range w.Nodes {
+			if !n.Crashed {
+				live = append(live, n.ID)
+			}
+		}
+		if r == 0 {
+			w.Tick(id, 10)
+		} else {
+			w.Tick(live[r%len(live)], 10)
+		}
+		w.Settle(1)
+	}
+	w.Settle(3)
+	for dsid := range w.objects {
+		w.objects[dsid] = nil
+		for _, n := range w.Nodes {
+			if !n.Crashed {
+				if ds, err := n.Srv.VerifDatasetManager().Get(dsid); err == nil {
+					w.objects[dsid] = append(w.objects[dsid], ds)
+				}
+			}
+		}
+	}
+	return "", ""
+}
+
 func (w *wld) apply(e event) (string, string) {
+	before := w.Durable[e.Node]
+	k, d := w.apply1(e)
+	w.lastDurable = w.Durable[e.Node] - before
+	return k, d
+}
+
+func (w *wld) apply1(e event) (string, string) {
+	if e.CrashAt > 0 {
+		w.ArmCrash(e.Node, e.CrashAt, e.CrashAfter)
+	}
 	switch e.Kind {
 	case "create":
 		w.counts.creates++
@@ -139,6 +212,17 @@ func (w *wld) apply(e event) (string, string) {
 		})
 		w.Quiesce()
 		w.Settle(3)
+		if e.CrashAt > 0 && w.Node(e.Node).Crashed {
+			// the serving node died in the middle of the request; it comes back
+			if k, d := w.recover(e.Node); k != "" {
+				return k, d
+			}
+			if !done {
+				w.unackedCreates++
+				return w.checkCatalogue()
+			}
+		}
+		w.Disarm()
 		if !done {
 			// time passes: the request's 1 s deadline fires
 			w.FireDeadlines(e.Node)
@@ -186,6 +270,19 @@ func (w *wld) apply(e event) (string, string) {
 		})
 		w.Quiesce()
 		w.Settle(3)
+		if e.CrashAt > 0 && w.Node(e.Node).Crashed {
+			if k, d := w.recover(e.Node); k != "" {
+				return k, d
+			}
+			if !done {
+				if w.maybeDeleted == nil {
+					w.maybeDeleted = map[string]bool{}
+				}
+				w.maybeDeleted[fmt.Sprintf("%x", id.Bytes())] = true
+				return w.checkCatalogue()
+			}
+		}
+		w.Disarm()
 		if !done {
 			w.FireDeadlines(e.Node)
 			w.Settle(1)
@@ -253,6 +350,8 @@ func (w *wld) checkCatalogue() (string, string) {
 	for id, c := range w.expected {
 		want[fmt.Sprintf("%x", id.Bytes())] = c
 	}
+	var firstExtras []string
+	firstNode := uint64(0)
 	for _, n := range w.Nodes {
 		if n.Crashed {
 			continue
@@ -261,8 +360,30 @@ func (w *wld) checkCatalogue() (string, string) {
 		if !ok {
 			return "list-never-returns", fmt.Sprintf("List on node %d did not return", n.ID)
 		}
+		// effects of requests that a crash cut short before their acknowledgement: there or not, but the same everywhere
+		var extras []string
+		for id := range got {
+			if _, has := want[id]; !has {
+				extras = append(extras, id)
+			}
+		}
+		for id := range want {
+			if _, has := got[id]; !has && w.maybeDeleted[id] {
+				extras = append(extras, "-"+id)
+			}
+		}
+		sort.Strings(extras)
+		if firstNode == 0 {
+			firstNode, firstExtras = n.ID, extras
+		} else if fmt.Sprint(extras) != fmt.Sprint(firstExtras) {
+			return "catalogues-differ-between-nodes", fmt.Sprintf("after an unacknowledged request: node %d and node %d disagree about its effect (%v vs %v)", firstNode, n.ID, firstExtras, extras)
+		}
+		allowedExtra := w.unackedCreates
 		for id, c := range want {
 			g, has := got[id]
+			if !has && w.maybeDeleted[id] {
+				continue
+			}
 			if !has {
 				return "acknowledged-dataset-missing", fmt.Sprintf("node %d does not list dataset %s (catalogue: %v)", n.ID, id[:8], keys(got))
 			}
@@ -272,6 +393,10 @@ func (w *wld) checkCatalogue() (string, string) {
 		}
 		for id := range got {
 			if _, has := want[id]; !has {
+				if allowedExtra > 0 {
+					allowedExtra--
+					continue
+				}
 				return "deleted-dataset-still-listed", fmt.Sprintf("node %d still lists dataset %s", n.ID, id[:8])
 			}
 		}
@@ -511,6 +636,46 @@ func main() {
 			transitions += st.Transitions
 			complete = complete && st.Complete
 		}
+		// crash points inside a request: the serving node dies before / after each durable write the request makes it
+		// perform and comes back; what was acknowledged must be there, what was not may be - the same on every node
+		crashCases := 0
+		for _, nodes := range []int{1, 2} {
+			for _, via := range []uint64{1, 2} {
+				if int(via) > nodes {
+					continue
+				}
+				c1 := event{Kind: "create", Node: via, P: 1, R: 1}
+				for _, base := range [][]event{{c1}, {c1, {Kind: "create", Node: via, P: 2, R: 1, Space: 1}}, {c1, {Kind: "delete", Node: via, DS: 0}}, {c1, {Kind: "snapshot", Node: via}, {Kind: "delete", Node: via, DS: 0}}} {
+					if time.Now().After(deadline) {
+						complete = false
+						break
+					}
+					limits.creates, limits.deletes, limits.snapshots, limits.restarts = 99, 99, 99, 99
+					w, k, d := build(nodes, base)
+					n := w.lastDurable
+					w.Close()
+					if k != "" {
+						run.Violation(k, fmt.Sprintf("N=%d %v: %s", nodes, base, d), map[string]interface{}{"nodes": nodes, "path": base})
+						continue
+					}
+					for j := 1; j <= n; j++ {
+						for _, after := range []bool{false, true} {
+							path := append([]event{}, base...)
+							path[len(path)-1].CrashAt, path[len(path)-1].CrashAfter = j, after
+							// afterwards the node is used again: one more create must work and be listed everywhere
+							path = append(path, event{Kind: "create", Node: via, P: 1, R: 1, Space: 2})
+							w, k, d := build(nodes, path)
+							w.Close()
+							crashCases++
+							if k != "" {
+								run.Violation(k+":crash-inside-request", fmt.Sprintf("N=%d %v: %s", nodes, path, d), map[string]interface{}{"nodes": nodes, "path": path})
+							}
+						}
+					}
+				}
+			}
+		}
+		transitions += crashCases
 		// catalogue log determinism: every log up to a depth x every cut point x {fresh, used}
 		logDepth := 3
 		if thorough {
@@ -549,7 +714,7 @@ func main() {
 		rec(nil)
 		transitions += logs + cuts
 		states += logs
-		return ev.Coverage{"catalogue_logs": logs, "catalogue_cut_checks": cuts, "evaluations": transitions, "distinct_nontrivial": states, "traces_validated_against_impl": transitions,
+		return ev.Coverage{"crash_inside_request_cases": crashCases, "catalogue_logs": logs, "catalogue_cut_checks": cuts, "evaluations": transitions, "distinct_nontrivial": states, "traces_validated_against_impl": transitions,
 			"catalogue_states": states, "catalogue_transitions": transitions, "catalogue_bfs_complete": complete,
 			"rule": "E2: BFS over create/delete/snapshot/restart histories on 1- and 2-node clusters of real servers (every event followed by settling the cluster); after each event every live node's List() must equal the acknowledged catalogue"}
 	}
@@ -584,6 +749,7 @@ func main() {
 		"model_checking", []string{
 			"servers are built by the real Server.setup() (only the Badger path, the TCP listener and the wire are simulated); the zero-group snapshot offset is lowered to 0",
 			"E2 part: one event at a time, the cluster settles in between (sequential histories; message faults are C05's business)",
+			"crash points inside a request: create / delete served by node v on 1- and 2-node clusters, v crashing before and after every durable write the request makes it perform (zero group and partition logs), then restarting; one more create afterwards",
 			"E1 part: a `go` statement is a scheduling point, so the zero group's ready loop may run before setup() continues",
 		})
 }
